@@ -42,7 +42,7 @@ PROPS = {
                      "multiplet, and run() integrals (incl. tetra=True) / tabulations, tolerance 1e-8 x scale, on dyadic random models; per-band comparisons only at k-points whose gaps exceed "
                      "0.05 (NonDegenerateK). That the random rotation really happened in evaluate_k / run() is established by counting the draws of scipy.stats.unitary_group (if the package "
                      "stops using it the count is reported as skipped). ShiftCurrentFormula (abelian generalised derivative: V_nn, A_nn) is gauge invariant only for multiplets without internal connection "
-                     "(spin copies): on the other degenerate systems its deviation is reported in part candidate_finding_not_gauge_covariant, not as a violation (named exclusion ABELIAN_FORMULAS). If evaluate_k raises with random_gauge=True that is a violation and the gauge part stops there. "
+                     "(spin copies): on the other degenerate systems it depends on the random gauge, reported under the key random_gauge:formula:ShiftCurrentFormula (known finding). If evaluate_k raises with random_gauge=True that is a violation and the gauge part stops there. "
                      "Data_K.HH_K / degen / UU_K are private attributes: used through guarded adapters, sub-checks are skipped (part skipped_private) when they are gone.",
                 ref="DESIGN.md 3.4, 3.5, 5 (row C04), 7 (F2)"),
 }
@@ -52,7 +52,7 @@ UNIT = 0.125
 TOL = 1e-8
 MINGAP = 0.05
 # formulas written in terms of band-diagonal matrix elements (abelian generalised derivative): see numeric_gauge
-ABELIAN_FORMULAS = {"ShiftCurrentFormula"}
+ABELIAN_FORMULAS = set()     # ShiftCurrentFormula was here: now reported (known finding C04 random_gauge:formula:ShiftCurrentFormula)
 SPLIT = 2.0 ** -40          # splitting of the near-degenerate pairs: far below degen_thresh_random_gauge = 1e-4
 
 
